@@ -282,6 +282,62 @@ func checkReset(c rcase) *mc.Failure {
 	})
 }
 
+// ---- long inputs through a scanner reading fixed-size fragments ----
+
+type lcase struct {
+	In   mc.BStr `json:"in"`
+	Frag int     `json:"fragment_size"` // 0: everything at once
+}
+
+type chunkReader struct {
+	data string
+	n    int
+}
+
+func (c *chunkReader) Read(p []byte) (int, error) {
+	if len(c.data) == 0 {
+		return 0, io.EOF
+	}
+	k := len(p)
+	if c.n > 0 && c.n < k {
+		k = c.n
+	}
+	k = copy(p[:k], c.data)
+	c.data = c.data[k:]
+	return k, nil
+}
+
+func checkLong(c lcase) *mc.Failure {
+	return mc.GuardT("long", c, func() *mc.Failure {
+		in := string(c.In)
+		want, wok, _ := shellh.Split(in)
+		sc := shell.NewScanner(&chunkReader{data: in, n: c.Frag})
+		var got []string
+		for sc.Next() {
+			got = append(got, sc.Text())
+			if len(got) > len(in)+2 {
+				break
+			}
+		}
+		if !eqs(got, texts(want)) {
+			return mc.Failf(0, "scanner (reads of %d bytes) yields %d tokens, reference %d; first difference near token %d", c.Frag, len(got), len(want), firstDiff(got, texts(want)))
+		}
+		if sc.Err() != io.EOF || sc.Complete() != wok {
+			return mc.Failf(0, "scanner (reads of %d bytes): Err=%v Complete=%v, want EOF and %v", c.Frag, sc.Err(), sc.Complete(), wok)
+		}
+		return nil
+	})
+}
+
+func firstDiff(a, b []string) int {
+	for i := 0; i < len(a) && i < len(b); i++ {
+		if a[i] != b[i] {
+			return i
+		}
+	}
+	return min(len(a), len(b))
+}
+
 // ---- pool reuse: a call must not be influenced by the previous one ----
 
 type pcase struct {
@@ -310,15 +366,12 @@ func main() {
 			Explore: func(r *mc.Run) {
 				// Seven representative bytes (one per class, two blanks) to the full
 				// bound; two further "other" bytes ($ and a non-ASCII byte) to a lower one.
-				strs := allStrings(alphabet[:7], mc.Pick(r, 7, 9))
-				extra := allStrings(alphabet, mc.Pick(r, 5, 6))
-				strs = append(strs, extra...)
 				var cover [shellh.NStates][shellh.NClasses]int64
 				pairs := map[[4]int]bool{}
 				var pmu sync.Mutex
-				var incomplete int64
-				mc.ParallelFor(len(strs), r.Workers, func(i int) {
-					s := strs[i]
+				var incomplete, n int64
+				one := func(b []byte) {
+					s := string(b)
 					if f := checkSplit(scase{mc.BStr(s)}); f != nil {
 						r.Violation(mc.Case{Harness: "split", Trace: mc.J(scase{mc.BStr(s)}), Msg: f.Msg})
 					}
@@ -326,21 +379,25 @@ func main() {
 					if !ok {
 						atomic.AddInt64(&incomplete, 1)
 					}
-					local := map[[4]int]bool{}
+					var local [][4]int
 					for k := range s {
 						atomic.AddInt64(&cover[st[k]][shellh.ClassOf(s[k])], 1)
-						if k > 0 {
-							local[[4]int{st[k-1], shellh.ClassOf(s[k-1]), st[k], shellh.ClassOf(s[k])}] = true
+						if k > 0 && len(s) <= 6 {
+							local = append(local, [4]int{st[k-1], shellh.ClassOf(s[k-1]), st[k], shellh.ClassOf(s[k])})
 						}
 					}
-					if i%64 == 0 || len(s) >= 6 {
+					if len(local) > 0 {
 						pmu.Lock()
-						for p := range local {
+						for _, p := range local {
 							pairs[p] = true
 						}
 						pmu.Unlock()
 					}
-				})
+				}
+				// Seven representative bytes (one per class, two blanks) to the full
+				// bound; two further "other" bytes ($ and a non-ASCII byte) to a lower one.
+				n += mc.ForStrings(alphabet[:7], mc.Pick(r, 7, 9), r.Workers, one)
+				n += mc.ForStrings(alphabet, mc.Pick(r, 5, 6), r.Workers, one)
 				covered := 0
 				for s := 0; s < shellh.NStates; s++ {
 					for c := 0; c < shellh.NClasses; c++ {
@@ -349,7 +406,6 @@ func main() {
 						}
 					}
 				}
-				n := int64(len(strs))
 				r.AddEval(n, n, n, incomplete)
 				r.Count("state_class_entries_covered_of_42", int64(covered))
 				r.Count("consecutive_transition_pairs_covered", int64(len(pairs)))
@@ -358,10 +414,7 @@ func main() {
 				r.Sample(scase{"a\\\n b \"c\\\"d\" 'e"})
 				// Real shells on the complete inputs free of unquoted newlines and other metacharacters.
 				var shInputs []string
-				for _, s := range strs {
-					if len(s) > mc.Pick(r, 5, 6) || strings.ContainsAny(s, "$\x80") {
-						continue
-					}
+				for _, s := range allStrings(alphabet[:7], mc.Pick(r, 5, 6)) {
 					if _, ok, _ := shellh.Split(s); ok && !hasUnquotedNewline(s) {
 						shInputs = append(shInputs, s)
 					}
@@ -530,6 +583,17 @@ func main() {
 			},
 		},
 		mc.Harness{
+			Name:    "long",
+			Explore: func(r *mc.Run) {},
+			Replay: func(c mc.Case) *mc.Failure {
+				var l lcase
+				if err := mc.Unmarshal(c.Trace, &l); err != nil {
+					return mc.Failf(-1, "bad trace: %v", err)
+				}
+				return checkLong(l)
+			},
+		},
+		mc.Harness{
 			Name: "pool",
 			Explore: func(r *mc.Run) {
 				// First inputs leave the pooled scanner in every automaton state
@@ -546,21 +610,46 @@ func main() {
 						atomic.AddInt64(&evals, 1)
 					}
 				})
-				// long inputs crossing bufio's 4096-byte buffer with an escape on the boundary
+				// long inputs: sections longer than bufio's 4096-byte buffer in every
+				// quoting state, escapes on the buffer boundary, terminated or not,
+				// through Split and through scanners with several read sizes
 				var long int64
+				var longInputs []string
 				for _, pre := range []int{4090, 4093, 4094, 4095, 4096, 8190, 8191} {
 					for _, tail := range []string{"\\\"y\" z", "\\\\\" z", "\\\nq\" z", "\\a\" z"} {
-						s := "\"" + strings.Repeat("x", pre) + tail
-						if f := checkSplit(scase{mc.BStr(s)}); f != nil {
-							f.Msg = fmt.Sprintf("long input (quote + %d x + %q): %.200s", pre, tail, f.Msg)
-							r.Violation(mc.Case{Harness: "split", Trace: mc.J(scase{mc.BStr(s)}), Msg: f.Msg})
+						longInputs = append(longInputs, "\""+strings.Repeat("x", pre)+tail)
+					}
+				}
+				for _, n := range []int{4094, 4095, 4096, 4097, 5000, 8192, 8193, 12289} {
+					body := strings.Repeat("x", n)
+					spaced := strings.Repeat("x y ", n/4)
+					longInputs = append(longInputs,
+						body, body+" tail", "a "+body,
+						"'"+body+"' tail", "'"+body, "'"+spaced+"' tail", "pre'"+body+"'post next",
+						"\""+body+"\" tail", "\""+body, "\""+spaced+"\" tail",
+						strings.Repeat("\\x", n/2)+" tail", body+"\\", strings.Repeat(" ", n)+"w", strings.Repeat("\\\n", n/2)+"w")
+				}
+				for _, s := range longInputs {
+					label := fmt.Sprintf("long input (%d bytes, starts %.12q)", len(s), s)
+					if f := checkSplit(scase{mc.BStr(s)}); f != nil {
+						f.Msg = label + ": " + fmt.Sprintf("%.300s", f.Msg)
+						r.Violation(mc.Case{Harness: "split", Trace: mc.J(scase{mc.BStr(s)}), Msg: f.Msg})
+					}
+					long++
+					for _, frag := range []int{0, 1000, 4096, 4097} {
+						var mask uint64 // only the first 64 bytes can carry cut bits; use a fixed-size fragmenting reader instead
+						_ = mask
+						c := lcase{In: mc.BStr(s), Frag: frag}
+						if f := checkLong(c); f != nil {
+							f.Msg = label + ": " + fmt.Sprintf("%.300s", f.Msg)
+							r.Violation(mc.Case{Harness: "long", Trace: mc.J(c), Msg: f.Msg})
 						}
 						long++
 					}
 				}
 				r.AddEval(evals+long, evals+long, evals+long, evals)
 				r.Count("long_inputs_across_the_read_buffer", long)
-				r.Rule("Split(s2) right after Split(s1) for s1 leaving the pooled scanner in every state and every short s2; long inputs with an escape on the 4096-byte buffer boundary")
+				r.Rule("Split(s2) right after Split(s1) for s1 leaving the pooled scanner in every state and every short s2; long inputs (sections of 4094..12289 bytes in every quoting state, escapes on the 4096-byte buffer boundary) through Split and through scanners reading 1000/4096/4097-byte fragments")
 				r.Sample(pcase{"'a b", "c d"})
 			},
 			Replay: func(c mc.Case) *mc.Failure {
